@@ -26,6 +26,8 @@ DTYPES = ["int64", "float64", "complex128", "object"]
 def _label(shape, dtype):
     n = int(np.prod(shape))
     a = np.arange(n).reshape(shape)
+    if dtype == "complex128":
+        return a.astype(np.complex128) + 1j * (2 * a + 1)  # a stray conjugation changes the labels
     if dtype == "object":
         return a.astype(object)
     return a.astype(dtype)
@@ -39,8 +41,8 @@ def _to_ints(out):
     vals = []
     for x in flat:
         if isinstance(x, (complex, np.complexfloating)):
-            if x.imag != 0:
-                raise ValueError("non-real label")
+            if x.imag != 0 and x.imag != 2 * x.real + 1:
+                raise ValueError("label value changed (imaginary part altered: conjugated?)")
             x = x.real
         if float(x) != int(x):
             raise ValueError("non-integer label")
